@@ -827,10 +827,10 @@ func mutateKeys(r *prng.R, sh *shadow, cur NodeD, allowCons bool) NodeD {
 		sub = []*int{&n.Cons, &n.P2P, &n.VRF, &n.TLS}
 	}
 	switch {
-	case x < 22: // renew
-	case x < 45: // rotate one key
+	case x < 30: // renew
+	case x < 58: // rotate one key
 		*sub[r.Intn(len(sub))] = freshKeys(r, sh, 1, keysOf(&cur))[0]
-	case x < 52: // rotate two
+	case x < 66: // rotate two
 		f := freshKeys(r, sh, 2, keysOf(&cur))
 		i := r.Intn(len(sub))
 		j := (i + 1 + r.Intn(len(sub)-1)) % len(sub)
@@ -839,21 +839,21 @@ func mutateKeys(r *prng.R, sh *shadow, cur NodeD, allowCons bool) NodeD {
 		i := r.Intn(len(sub))
 		j := (i + 1 + r.Intn(len(sub)-1)) % len(sub)
 		*sub[i], *sub[j] = *sub[j], *sub[i]
-	case x < 82: // 3-cycle
+	case x < 78: // 3-cycle
 		a, b, c := *sub[len(sub)-3], *sub[len(sub)-2], *sub[len(sub)-1]
 		if r.Chance(50) {
 			*sub[len(sub)-3], *sub[len(sub)-2], *sub[len(sub)-1] = b, c, a
 		} else {
 			*sub[len(sub)-3], *sub[len(sub)-2], *sub[len(sub)-1] = c, a, b
 		}
-	case x < 90: // take over the old key of another kind and rotate that one away
+	case x < 84: // take over the old key of another kind and rotate that one away
 		i := r.Intn(len(sub))
 		j := (i + 1 + r.Intn(len(sub)-1)) % len(sub)
 		*sub[i] = *sub[j]
 		*sub[j] = freshKeys(r, sh, 1, keysOf(&cur))[0]
-	case x < 94: // illegal: consensus key changes
+	case x < 91: // illegal: consensus key changes
 		n.Cons = freshKeys(r, sh, 1, keysOf(&cur))[0]
-	case x < 97: // illegal: entity changes
+	case x < 96: // illegal: entity changes
 		n.Ent = 1 + (cur.Ent % nEnts)
 	default: // two kinds share a key
 		*sub[0] = *sub[1]
@@ -1107,8 +1107,8 @@ func main() {
 	}
 	_ = logging.Initialize(io.Discard, logging.FmtLogfmt, logging.LevelError, nil)
 	initPool()
-	hdr := "From Verif Require Import Lib.Base Registry.Model.\n"
-	wb := coqout.NewWriter(*out, hdr, "run_case", "list_eqb obs_eqb", 60)
+	hdr := "From Verif Require Import Lib.Base Registry.Model Gen.RegistryConsts.\n"
+	wb := coqout.NewWriter(*out, hdr, "run_case_b setnode_removals_first", "list_eqb obs_eqb", 60)
 	sum := coqout.NewSummary("seeded histories over a pool of 24 keys (1-3 entities, 4-7 node ids, sub-keys mostly 8-24): layer tx = RegisterEntity/DeregisterEntity/RegisterNode transactions through ExecuteTx (transaction signer right/wrong, descriptor signatures full/one missing/one extra/one wrong/invalid) and epoch transitions through BeginBlock; layer state = SetNode/RemoveNode/SetEntity/SetRuntimeOwner called directly; node updates renew, rotate, swap, 3-cycle or take over P2P/VRF/TLS (state layer: also consensus) keys; non-trivial = the history contains an accepted node update that changed at least one sub-key; distinct = distinct operation lists")
 	var cases []Case
 	if *replay != "" {
